@@ -8,6 +8,11 @@
 //	model lean/Gojq/Model/Heap.lean (driver lean/Driver/C05.lean): result values, aliasing structure,
 //	which containers are registered in the allocator, and which pre-existing containers were written.
 //
+//	The stream also covers SLICE path elements (lean/Gojq/Model/HeapSlice.lean) and the OTHER write
+//	sites — add, `_add`, flatten, transpose, reverse, sort, unique, `_group_by`, join, implode called
+//	through gojq.VerifNatives() (op `F`, lean/Gojq/Model/HeapWriters.lean): which cells of the result
+//	are new, which are cells of the arguments, and that NO pre-existing cell is written.
+//
 // oracles (model-free, on the real code): harness/c05oracle (snapshots of input / variables / constants /
 //
 //	emitted values, re-runs) and harness/c02oracle (operators versus their defining reductions — it
@@ -356,6 +361,81 @@ func (s *state) buildSrc(toks []string) any {
 	}
 }
 
+// buildSrcs reads the sources of an `F` operation, left to right.
+func (s *state) buildSrcs(toks []string) []any {
+	var out []any
+	for len(toks) > 0 {
+		if toks[0] == "L" {
+			x, rest, err := buildLit(toks[1:])
+			if err != nil {
+				panic(err)
+			}
+			out = append(out, x)
+			toks = rest
+			continue
+		}
+		out = append(out, s.buildSrc(toks[:1]))
+		toks = toks[1:]
+	}
+	return out
+}
+
+// callWriter calls one of the natives that build a container (op `F`) through the native table.
+func callWriter(nat map[string]gojq.VerifNativeInfo, name string, args []any) any {
+	arg := func(i int) any {
+		if i < len(args) {
+			return args[i]
+		}
+		return nil
+	}
+	switch name {
+	case "add2":
+		return nat["_add"].Callback(nil, []any{arg(0), arg(1)})
+	case "add", "transpose", "reverse", "sort", "unique", "implode":
+		return nat[name].Callback(arg(0), nil)
+	case "flatten":
+		return nat["flatten"].Callback(arg(0), []any{})
+	case "flatten0", "flatten1", "flatten2":
+		return nat["flatten"].Callback(arg(0), []any{int(name[7] - '0')})
+	case "group":
+		return nat["_group_by"].Callback(arg(0), []any{arg(0)})
+	case "join":
+		return nat["join"].Callback(arg(0), []any{arg(1)})
+	case "sortby", "uniqueby", "groupby", "minby", "maxby":
+		return nat["_"+name[:len(name)-2]+"_by"].Callback(arg(0), []any{arg(1)})
+	case "mul":
+		return nat["_multiply"].Callback(nil, []any{arg(0), arg(1)})
+	}
+	panic("native " + name)
+}
+
+// clipNew clips the capacity of every array of v that did not exist before (address not in pre) to its
+// length: Go's growth policy for append is not modelled. It descends into new containers only.
+func clipNew(v any, pre map[uintptr]int) any {
+	switch c := v.(type) {
+	case []any:
+		if p, ok := ptrOf(c); ok {
+			if _, old := pre[p]; old {
+				return v
+			}
+		}
+		for i, x := range c {
+			c[i] = clipNew(x, pre)
+		}
+		return c[:len(c):len(c)]
+	case map[string]any:
+		if p, ok := ptrOf(c); ok {
+			if _, old := pre[p]; old {
+				return v
+			}
+		}
+		for k, x := range c {
+			c[k] = clipNew(x, pre)
+		}
+	}
+	return v
+}
+
 // ---- address tracking -------------------------------------------------------------------------------
 
 func ptrOf(v any) (uintptr, bool) {
@@ -566,6 +646,30 @@ func exec(line string, nat map[string]gojq.VerifNativeInfo) (answer string, writ
 			res = gojq.VerifDelpathsAlloc(s.v, buildPaths(op[1][2:]), s.a)
 		case "d":
 			res = nat["delpaths"].Callback(s.v, []any{buildPaths(op[1][2:])})
+		case "F":
+			wargs := s.buildSrcs(op[2:])
+			// everything that exists when the native is called, the literals among its arguments included
+			_, argIdx := numbering(append(s.roots(), wargs...))
+			res, isV = callWriter(nat, op[1], wargs), false
+			if _, isErr := res.(error); op[1] == "join" || op[1] == "implode" {
+				// a string (or an error): no cell either way, rendered as null
+				res = nil
+			} else if !isErr {
+				switch res.(type) {
+				case nil, []any, map[string]any:
+					res = clipNew(res, argIdx)
+				default:
+					if op[1] == "add2" && (wargs[0] == nil || wargs[1] == nil) {
+						break // null + x, x + null: the other operand itself, whatever it is
+					}
+					if op[1] == "minby" || op[1] == "maxby" {
+						break // an element of the array, whatever it is
+					}
+					// a scalar result (sums of numbers or strings): the model answers `?scalar`
+					out = append(out, "scalar")
+					return strings.Join(out, " ; "), written, unowned
+				}
+			}
 		default:
 			panic("op " + op[0])
 		}
@@ -607,7 +711,7 @@ func exec(line string, nat map[string]gojq.VerifNativeInfo) (answer string, writ
 				written++
 				// the model-free part of C05.1: a container that was written must have been registered in
 				// the allocator in use (`s`, `d` use none / their own: nothing pre-existing may change)
-				if !ownedBefore[i] || op[0] == "s" || op[0] == "d" {
+				if !ownedBefore[i] || op[0] == "s" || op[0] == "d" || op[0] == "F" {
 					unowned = append(unowned, fmt.Sprintf("op %q changed pre-existing container #%d (%s -> %s)", seg, i, c.fp, fingerprint(c.val)))
 				}
 			}
@@ -620,9 +724,9 @@ func exec(line string, nat map[string]gojq.VerifNativeInfo) (answer string, writ
 func heapStream(ctx *common.Ctx) {
 	r := ctx.R.Fork(5)
 	nat := gojq.VerifNatives()
-	st := ctx.NewStream("heap", "Gojq.Heap.upd/mark/sweep/release/getp/observe (Model/Heap.lean)",
-		"random operation sequences (1–9 ops: _setpath, setpath, allocator getpath with release, plain getpath creating aliases, _delpaths, delpaths, new allocator; payloads: fresh literals, registers, [r,r], {x:r}) on random nested values with explicit capacities; distinct = distinct implementation answers")
-	orc := ctx.NewOracle("heap-writes", "model-free: in every operation of the heap stream, a pre-existing container whose shallow content (full backing array) changed must have been registered in the allocator passed to the native; setpath/delpaths without allocator must change nothing that existed; distinct = operations that wrote at least one pre-existing container in place")
+	st := ctx.NewStream("heap", "Gojq.Heap.upd/mark/sweep/release/getp/observe (Model/Heap.lean); updS/markS/getpReleaseS for paths with SLICE elements (Model/HeapSlice.lean); wOpAdd/wAdd/wFlatten/wTranspose/wReverse/wSort/wUnique/wGroupBy/wSortBy/wUniqueBy/wGroupByK/wMinMaxBy/wDeepMerge/wScalar, the other write sites (Model/HeapWriters.lean)",
+		"random operation sequences (1–9 ops: _setpath, setpath, allocator getpath with release, plain getpath creating aliases, _delpaths, delpaths, new allocator; payloads: fresh literals, registers, [r,r], {x:r}; path elements: keys, indices and slices {start,end} with null, negative, out-of-range and crossing bounds; op F: the natives _add, add, flatten, flatten(depth), transpose, reverse, sort, unique, _group_by, _sort_by, _unique_by, _min_by, _max_by, _multiply (deepMergeObjects), join, implode called through the native table on registers, aliases of the current value and literals with spare capacity) on random nested values with explicit capacities; compared per op: all roots as one DAG (addresses, lengths, capacities, registered marks), pre-existing containers whose backing array changed (W=), dead registrations (Z=); distinct = distinct implementation answers")
+	orc := ctx.NewOracle("heap-writes", "model-free: in every operation of the heap stream, a pre-existing container whose shallow content (full backing array) changed must have been registered in the allocator passed to the native; setpath/delpaths without allocator and the natives of op F (add, _add, flatten, transpose, reverse, sort, unique, _group_by, _sort_by, _unique_by, _min_by, _max_by, _multiply on objects, join, implode) must change nothing that existed; distinct = operations that wrote at least one pre-existing container in place")
 	var lines, impl []string
 	n := ctx.N(8000, 50000)
 	if replayLine != "" {
@@ -660,6 +764,89 @@ func heapStream(ctx *common.Ctx) {
 					return common.Pick(r, []string{"R", "W", "W", "O"}) + strconv.Itoa(r.Intn(nregs))
 				}
 				return "L " + strings.Join(genLit(r, 1), " ")
+			}
+			// the other write sites: a native that builds a container from (parts of) the current value,
+			// registers and literals with spare capacity
+			if r.Chance(1, 6) {
+				wsrc := func() string {
+					if nregs > 0 && r.Chance(2, 3) {
+						return common.Pick(r, []string{"R", "R", "R", "W", "O"}) + strconv.Itoa(r.Intn(nregs))
+					}
+					return arrLitTop(r)
+				}
+				if r.Chance(1, 2) {
+					// alias (a part of) the current value first
+					p := genPath(r, cur)
+					if pathEndsInSlice(p) {
+						if i := strings.LastIndex(p, ","); i >= 0 {
+							p = p[:i]
+						} else {
+							p = ""
+						}
+					}
+					line += " ; g p:" + p
+					nregs++
+				}
+				name := common.Pick(r, []string{"add2", "add2", "add2", "add", "add", "flatten", "flatten1", "flatten0", "flatten2",
+					"transpose", "reverse", "sort", "unique", "group", "join", "implode",
+					"sortby", "uniqueby", "groupby", "minby", "maxby", "mul", "mul"})
+				fop := "F " + name + " " + wsrc()
+				if strings.HasSuffix(name, "by") {
+					// values and keys: two arrays, mostly of the same length
+					vals, keys := []string{"[", "c" + strconv.Itoa(r.Range(0, 5))}, []string{"[", "c0"}
+					for i, cnt := 0, r.Range(0, 4); i < cnt; i++ {
+						vals = append(vals, genLit(r, 2)...)
+						keys = append(keys, common.Pick(r, []string{"i0", "i1", "i1", "i2", "n", "s" + common.Hex("a"), "[ c0 ]"}))
+					}
+					if r.Chance(1, 8) {
+						keys = append(keys, "n")
+					}
+					v := "L " + strings.Join(append(vals, "]"), " ")
+					if nregs > 0 && r.Chance(1, 4) {
+						v = "R" + strconv.Itoa(r.Intn(nregs))
+					}
+					fop = "F " + name + " " + v + " L " + strings.Join(append(keys, "]"), " ")
+				}
+				if name == "mul" {
+					// two objects, with common keys that hold objects now and then
+					obj := func() string {
+						for {
+							if l := genLit(r, 0); l[0] == "{" {
+								return "L " + strings.Join(l, " ")
+							}
+						}
+					}
+					a, b := obj(), obj()
+					if nregs > 0 && r.Chance(1, 3) {
+						a = common.Pick(r, []string{"R", "O"}) + strconv.Itoa(r.Intn(nregs))
+					}
+					fop = "F mul " + a + " " + b
+				}
+				if name == "transpose" && r.Chance(2, 3) {
+					// an array of arrays of different lengths
+					m := []string{"[", "c" + strconv.Itoa(r.Range(0, 4))}
+					for i, rows := 0, r.Range(0, 3); i < rows; i++ {
+						for {
+							if l := genLit(r, 2); l[0] == "[" {
+								m = append(m, l...)
+								break
+							}
+						}
+					}
+					fop = "F transpose L " + strings.Join(append(m, "]"), " ")
+				}
+				if name == "add2" {
+					fop += " " + wsrc()
+				}
+				if name == "join" {
+					fop += " L " + common.Pick(r, []string{"s" + common.Hex(","), "n", "i1"})
+				}
+				line += " ; " + fop
+				nregs++
+				if a := execAnswer(line, nat); strings.HasSuffix(a, "halt") || strings.HasSuffix(a, "cyclic") || strings.HasSuffix(a, "view") || strings.HasSuffix(a, "scalar") {
+					break
+				}
+				continue
 			}
 			switch k := r.Intn(20); {
 			case k < 6: // one iteration of _modify: getpath with release, then _setpath of something built from it
@@ -712,7 +899,7 @@ func heapStream(ctx *common.Ctx) {
 				op = "N"
 			}
 			line += " ; " + op
-			if a := execAnswer(line, nat); strings.HasSuffix(a, "halt") || strings.HasSuffix(a, "cyclic") || strings.HasSuffix(a, "view") {
+			if a := execAnswer(line, nat); strings.HasSuffix(a, "halt") || strings.HasSuffix(a, "cyclic") || strings.HasSuffix(a, "view") || strings.HasSuffix(a, "scalar") {
 				break
 			}
 		}
@@ -726,6 +913,13 @@ func heapStream(ctx *common.Ctx) {
 		answers := strings.Split(ans, " ; ")
 		for k, op := range strings.Split(line, " ; ")[1:] {
 			st.Distribution["op "+op[:1]]++
+			if op[:1] == "F" {
+				name := strings.Fields(op)[1]
+				st.Distribution["F "+name]++
+				if k+1 < len(answers) && strings.HasPrefix(answers[k+1], "ok") {
+					st.Distribution["F "+name+", no error"]++
+				}
+			}
 			if strings.Contains(op, ":l") || strings.Contains(op, ",l") || strings.Contains(op, "|l") {
 				st.Distribution["slice path in op "+op[:1]]++
 				if k+1 < len(answers) && strings.HasPrefix(answers[k+1], "ok") {
@@ -773,6 +967,16 @@ func heapStream(ctx *common.Ctx) {
 	ctx.RunStream(st, lines, impl)
 }
 
+// arrLitTop draws an array or object literal (arrays of arrays, of objects and of scalars; explicit
+// capacities, some with spare capacity).
+func arrLitTop(r *common.Rand) string {
+	for {
+		if l := genLit(r, 1); l[0] == "[" || l[0] == "{" {
+			return "L " + strings.Join(l, " ")
+		}
+	}
+}
+
 func pathEndsInSlice(p string) bool {
 	i := strings.LastIndex(p, ",")
 	return len(p) > i+1 && p[i+1] == 'l'
@@ -810,6 +1014,11 @@ func currentValue(line string, nat map[string]gojq.VerifNativeInfo) any {
 			res = gojq.VerifDelpathsAlloc(s.v, buildPaths(op[1][2:]), s.a)
 		case "d":
 			res = nat["delpaths"].Callback(s.v, []any{buildPaths(op[1][2:])})
+		case "F":
+			res, isV = callWriter(nat, op[1], s.buildSrcs(op[2:])), false
+			if op[1] == "join" || op[1] == "implode" {
+				res = nil
+			}
 		}
 		if _, isErr := res.(error); isErr {
 			if !isV {
